@@ -367,3 +367,98 @@ Proof.
   rewrite Z.geb_leb. destruct (Z.leb_spec (slen (chop (nthl lines i))) (o + dir)); xstep; [reflexivity|].
   rewrite wrap_I32_id by exact Iod. rewrite (store_cell m bo o _ Ho). xstep. reflexivity.
 Qed.
+
+(* ------------------------------------------------------------------ lbuf_next *)
+Lemma lbuf_at_upd m lb bln lbs lines b blk' : lbuf_at m lb bln lbs lines -> (b < length m)%nat -> ~ In b (lb :: bln :: lbs) ->
+  lbuf_at (upd m b blk') lb bln lbs lines.
+Proof.
+  intros R Hb Nb. apply (lbuf_at_other m); [exact R|]. intros k Hk. apply mem_upd_other; [exact Hb|]. intros ->. contradiction.
+Qed.
+
+Definition next_tail : stmt := match fn_body cf_lbuf_next with SSeq _ t => t | _ => SSkip end.
+(* lbuf_next after the clamp of the row *)
+Definition next_tail_model (b : buf) (dir r o : Z) : st3 :=
+  match lbuf_lnnext b dir r o with
+  | Some o' => (false, r, o')
+  | None => match getl b (r + dir) with
+            | None => (true, r, o)
+            | Some _ => (false, r + dir, if 0 <? dir then 0 else lbuf_eol b (r + dir))
+            end
+  end.
+Definition st_val (s : bool) : val := VInt (if s then -1 else 0).
+
+Lemma next_tail_ok m lb bln lbs lines br bo r o dir d fuel : lbuf_at m lb bln lbs lines -> lines_small lines ->
+  (maxlen lines < fuel)%nat -> cell_at m br r -> cell_at m bo o -> br <> bo ->
+  ~ In br (lb :: bln :: lbs) -> ~ In bo (lb :: bln :: lbs) ->
+  i32 r -> i32 o -> i32 (o + dir) -> i32 (r + dir) ->
+  exec (callf cprog fuel (S (S (S d)))) fuel next_tail (mkst [VPtr lb 0; VInt dir; VPtr br 0; VPtr bo 0] m)
+  = let '(s, r', o') := next_tail_model (map chop lines) dir r o in
+    OReturn (st_val s) (mkst [VPtr lb 0; VInt dir; VPtr br 0; VPtr bo 0] (set_pos m br bo r' o')).
+Proof.
+  intros R Hsm Hf Hr Ho Hne Nr No Ir Io Iod Ird. pose proof (cell_lt _ _ _ Hr) as Lr. pose proof (cell_lt _ _ _ Ho) as Lo.
+  unfold next_tail; cbn [fn_body cf_lbuf_next]. xstep.
+  rewrite (tr_lbuf_lnnext m lb bln lbs lines br bo r o dir d fuel R Hsm Hf Hr Ho Ir Io Iod).
+  unfold next_tail_model. destruct (lbuf_lnnext (map chop lines) dir r o) as [o'|]; xstep.
+  { unfold set_pos. rewrite (upd_self m br _ Hr). reflexivity. }
+  rewrite (load_cell m br r Hr). xstep. rewrite wrap_I32_id by exact Ir. rewrite chk_I32 by exact Ird. xstep.
+  rewrite (tr_lbuf_get m lb bln lbs lines (r + dir) (S (S d)) fuel R Hsm). xstep.
+  rewrite getl_rowidx. unfold line_ptr. destruct (rowidx lines (r + dir)) as [i|] eqn:Ei; xstep; cbn [option_map].
+  2:{ rewrite chk_I32 by lia. rewrite (set_pos_self m br bo r o Hr Ho). reflexivity. }
+  rewrite (load_cell m br r Hr). xstep. rewrite wrap_I32_id by exact Ir. rewrite chk_I32 by exact Ird. xstep.
+  rewrite wrap_I32_id by exact Ird. rewrite (store_cell m br r _ Hr). xstep.
+  set (m2 := upd m br [VInt (r + dir)]).
+  assert (R2 : lbuf_at m2 lb bln lbs lines) by (apply lbuf_at_upd; assumption).
+  assert (Hr2 : cell_at m2 br (r + dir)) by (apply cell_at_upd_same; exact Lr).
+  assert (Ho2 : cell_at m2 bo o) by (apply cell_at_upd_other; [exact Lr|congruence|exact Ho]).
+  destruct (Z.ltb_spec 0 dir); xstep.
+  - rewrite (store_cell m2 bo o _ Ho2). xstep. reflexivity.
+  - rewrite (load_cell m2 br _ Hr2). xstep. rewrite wrap_I32_id by exact Ird.
+    rewrite (tr_lbuf_eol m2 lb bln lbs lines (r + dir) d fuel R2 Hsm Hf). xstep.
+    assert (i32 (lbuf_eol (map chop lines) (r + dir))) as Ie.
+    { unfold lbuf_eol. rewrite getl_rowidx, Ei. cbn [option_map].
+      pose proof (slen_small lines i Hsm (la_nonul _ _ _ _ _ R)). unfold i32. destruct (slen (chop (nthl lines i)) =? 0); lia. }
+    rewrite wrap_I32_id by exact Ie. rewrite (store_cell m2 bo o _ Ho2). xstep. reflexivity.
+Qed.
+
+Lemma set_pos_upd_r m br bo x r o : (br < length m)%nat -> set_pos (upd m br [VInt x]) br bo r o = set_pos m br bo r o.
+Proof. intro H. unfold set_pos. rewrite upd_upd by exact H. reflexivity. Qed.
+
+(* lbuf_next: status 0 / -1, the new position in *row, *off, nothing else changed *)
+Theorem tr_lbuf_next m lb bln lbs lines br bo r o dir d fuel : lbuf_at m lb bln lbs lines -> lines_small lines ->
+  (maxlen lines < fuel)%nat -> cell_at m br r -> cell_at m bo o -> br <> bo ->
+  ~ In br (lb :: bln :: lbs) -> ~ In bo (lb :: bln :: lbs) ->
+  i32 r -> i32 o -> i32 dir -> i32 (o + dir) -> i32 (r + dir) ->
+  callf cprog fuel (S (S (S (S d)))) F_lbuf_next [VPtr lb 0; VInt dir; VPtr br 0; VPtr bo 0] m
+  = let '(s, r', o') := lbuf_next (map chop lines) dir r o in Ok (st_val s, set_pos m br bo r' o').
+Proof.
+  intros R Hsm Hf Hr Ho Hne Nr No Ir Io Id Iod Ird. pose proof (cell_lt _ _ _ Hr) as Lr. pose proof (cell_lt _ _ _ Ho) as Lo.
+  enter F_lbuf_next cf_lbuf_next. rewrite exec_seq. (let t := eval cbv [next_tail fn_body cf_lbuf_next] in next_tail in change t with next_tail).
+  set (b := map chop lines).
+  change (lbuf_next b dir r o) with
+    (next_tail_model b dir (if (dir <? 0) && (r >=? blen b) then Z.max 0 (blen b - 1) else r) o).
+  assert (Hlen : 0 <= blen b <= 2147483647) by (unfold blen, b; rewrite map_length; destruct Hsm; lia).
+  remember next_tail as nt eqn:Ent.
+  xstep. destruct (Z.ltb_spec dir 0) as [Ld|Ld]; xstep.
+  - rewrite (load_cell m br r Hr). xstep. rewrite wrap_I32_id by exact Ir.
+    rewrite (tr_lbuf_len m lb bln lbs lines (S (S d)) fuel R Hsm). xstep. fold b. rewrite Z.geb_leb.
+    destruct (Z.leb_spec (blen b) r) as [Lc|Lc]; xstep.
+    + rewrite (tr_lbuf_len m lb bln lbs lines (S (S d)) fuel R Hsm). xstep. fold b. rewrite chk_I32 by lia. xstep.
+      destruct (Z.ltb_spec 0 (blen b - 1)) as [L1|L1]; xstep.
+      * rewrite (tr_lbuf_len m lb bln lbs lines (S (S d)) fuel R Hsm). xstep. fold b. rewrite chk_I32 by lia. xstep.
+        replace (Z.max 0 (blen b - 1)) with (blen b - 1) by lia. set (r1 := blen b - 1).
+        rewrite wrap_I32_id by (unfold r1; lia). rewrite (store_cell m br r _ Hr). xstep.
+        subst nt. rewrite (next_tail_ok (upd m br [VInt r1]) lb bln lbs lines br bo r1 o dir d fuel); try assumption;
+          try (apply lbuf_at_upd; assumption); try (apply cell_at_upd_same; exact Lr);
+          try (apply cell_at_upd_other; [exact Lr|congruence|exact Ho]); try (unfold i32, r1 in *; lia).
+        fold b. destruct (next_tail_model b dir r1 o) as [[s r'] o']. rewrite set_pos_upd_r by exact Lr. reflexivity.
+      * replace (Z.max 0 (blen b - 1)) with 0 by lia. change (wrap I32 0) with 0.
+        rewrite (store_cell m br r _ Hr). xstep.
+        subst nt. rewrite (next_tail_ok (upd m br [VInt 0]) lb bln lbs lines br bo 0 o dir d fuel); try assumption;
+          try (apply lbuf_at_upd; assumption); try (apply cell_at_upd_same; exact Lr);
+          try (apply cell_at_upd_other; [exact Lr|congruence|exact Ho]); try (unfold i32 in *; lia).
+        fold b. destruct (next_tail_model b dir 0 o) as [[s r'] o']. rewrite set_pos_upd_r by exact Lr. reflexivity.
+    + subst nt. rewrite (next_tail_ok m lb bln lbs lines br bo r o dir d fuel); try assumption.
+      fold b. destruct (next_tail_model b dir r o) as [[s r'] o']. reflexivity.
+  - subst nt. rewrite (next_tail_ok m lb bln lbs lines br bo r o dir d fuel); try assumption.
+    fold b. destruct (next_tail_model b dir r o) as [[s r'] o']. reflexivity.
+Qed.
